@@ -12,7 +12,7 @@ ASSUME = ["'wired to' is read as a planar obstruction (DESIGN 5/C05); a refusal 
 
 def run(tier, seed, t0):
     cov, rej = _diagapi.run("C05", "J05", tier, seed, t0, invariants=["InvWellTyped", "InvInterchange"],
-                            drift=True)
+                            drift=True, families=True)
     return core.finish("C05", tier, seed, LEVEL, cov, rej, t0, ASSUME)
 
 
